@@ -1,6 +1,7 @@
 package main
 
 import (
+	"time"
 	"encoding/json"
 	"flag"
 	"fmt"
@@ -239,6 +240,25 @@ func checkCmd(args []string) int {
 		fmt.Printf("VIOLATION property=%s replay=%s%s\n", id, path, suffix)
 		exit = 1
 	}
+	// bounded stand-ins (labelled bounded, never counted among the discharged obligations)
+	var bounded []*core.BoundedResult
+	for _, b := range cfg.Bounded {
+		br, v := runBounded(*repo, id, *tier, b)
+		bounded = append(bounded, br)
+		if v != nil {
+			path, _ := v.WriteReplay(replayDir)
+			cr.Violations = append(cr.Violations, v)
+			suffix := ""
+			if v.Replayed != "reproduced" {
+				suffix = " no-failing-input-found"
+			}
+			fmt.Printf("FAILED-BOUNDED-CHECK %s: %s\n", v.Obligation, truncate(v.Clause, 200))
+			fmt.Printf("VIOLATION property=%s replay=%s%s\n", id, path, suffix)
+			exit = 1
+		} else {
+			fmt.Printf("bounded stand-in %s (%s): %s\n", b.Function, b.Run, br.Summary)
+		}
+	}
 	level := cfg.Level
 	if level == "" {
 		level = "proof"
@@ -248,6 +268,9 @@ func checkCmd(args []string) int {
 	}
 	cmd := fmt.Sprintf("/verif/bin/check %s (govc check %s --tier %s)", id, id, *tier)
 	extra := map[string]any{"replay_outcomes": replayOutcomes(cr)}
+	if len(bounded) > 0 {
+		extra["bounded_stand_ins"] = bounded
+	}
 	if err := cr.WriteEvidence(*evdir, cfg, *tier, seed, cmd, level, extra); err != nil {
 		fmt.Fprintln(os.Stderr, "evidence:", err)
 		return 2
@@ -278,6 +301,79 @@ func writeLoadFailure(id string, err error) string {
 	data, _ := json.MarshalIndent(map[string]string{"property": id, "obligation": id + "#load", "error": err.Error()}, "", " ")
 	os.WriteFile(path, data, 0o644)
 	return path
+}
+
+// overlayFor builds a go test overlay that injects the driver files of pkg's replay directory.
+func overlayFor(repo, pkg, tmp string) (ovPath, drvDir string, ok bool) {
+	drvDir = filepath.Join(verifRoot(), "replay", strings.ReplaceAll(strings.Trim(pkg, "./"), "/", "_"))
+	if pkg == "." || pkg == "" {
+		drvDir = filepath.Join(verifRoot(), "replay", "root")
+	}
+	files, _ := filepath.Glob(filepath.Join(drvDir, "*_test.go"))
+	if len(files) == 0 {
+		return "", drvDir, false
+	}
+	ov := map[string]map[string]string{"Replace": {}}
+	for _, f := range files {
+		ov["Replace"][filepath.Join(repo, pkg, "zz_verif_"+filepath.Base(f))] = f
+	}
+	data, _ := json.Marshal(ov)
+	ovPath = filepath.Join(tmp, "overlay.json")
+	os.WriteFile(ovPath, data, 0o644)
+	return ovPath, drvDir, true
+}
+
+// runBounded runs one bounded stand-in: the named test of the package's driver directory is
+// injected with -overlay and run against the real code of the current tree.
+func runBounded(repo, id, tier string, b core.BoundedSpec) (*core.BoundedResult, *core.Violation) {
+	br := &core.BoundedResult{Function: b.Function, Test: b.Run, Bound: b.Bound, Why: b.Why, Status: "did-not-run"}
+	tmp, err := os.MkdirTemp("", "govc-bounded-")
+	if err != nil {
+		br.Summary = err.Error()
+		return br, &core.Violation{Property: id, Unit: b.Function, Obligation: b.Function + "#bounded", Kind: "bounded", Clause: "the bounded stand-in runs", Status: "error", Output: err.Error(), Pkg: b.Pkg, Replayed: "no-driver"}
+	}
+	defer os.RemoveAll(tmp)
+	ovPath, drvDir, ok := overlayFor(repo, b.Pkg, tmp)
+	if !ok {
+		br.Summary = "no driver files in " + drvDir
+		return br, &core.Violation{Property: id, Unit: b.Function, Obligation: b.Function + "#bounded", Kind: "bounded", Clause: "the bounded stand-in runs", Status: "error", Output: br.Summary, Pkg: b.Pkg, Replayed: "no-driver"}
+	}
+	n := b.LenQuick
+	if tier == "thorough" && b.LenThor > 0 {
+		n = b.LenThor
+	}
+	cmd := exec.Command("go", "test", "-overlay", ovPath, "-tags", "verif", "-vet=off", "-count=1", "-v", "-timeout", "1200s", "-run", "^"+b.Run+"$", ".")
+	cmd.Dir = filepath.Join(repo, b.Pkg)
+	cmd.Env = append(os.Environ(), "GOFLAGS=-mod=mod", "GOPROXY=off")
+	if n > 0 {
+		cmd.Env = append(cmd.Env, fmt.Sprintf("VERIF_BOUNDED_LEN=%d", n))
+	}
+	start := time.Now()
+	out, _ := cmd.CombinedOutput()
+	br.WallS = time.Since(start).Seconds()
+	br.Cmd = fmt.Sprintf("cd %s && VERIF_BOUNDED_LEN=%d go test -overlay <overlay of %s> -tags verif -vet=off -count=1 -run '^%s$' .", cmd.Dir, n, drvDir, b.Run)
+	line := ""
+	for _, l := range strings.Split(string(out), "\n") {
+		if strings.HasPrefix(l, "BOUNDED: ") {
+			line = l
+		}
+	}
+	switch {
+	case strings.HasPrefix(line, "BOUNDED: ok"):
+		br.Status = "ok"
+		br.Summary = strings.TrimPrefix(line, "BOUNDED: ")
+		return br, nil
+	case strings.HasPrefix(line, "BOUNDED: violation"):
+		br.Status = "violation"
+		br.Summary = strings.TrimPrefix(line, "BOUNDED: ")
+		return br, &core.Violation{Property: id, Unit: b.Function, Obligation: b.Function + "#bounded", Kind: "bounded", Pkg: b.Pkg,
+			Clause: "bounded stand-in (" + b.Bound + "): " + br.Summary, Status: "counterexample", Output: truncate(string(out), 3000),
+			ReplayCmd: br.Cmd, Replayed: "reproduced", ReplayLog: truncate(string(out), 3000)}
+	default:
+		br.Summary = "the test produced no BOUNDED line (build failure or crash outside the guarded call)"
+		return br, &core.Violation{Property: id, Unit: b.Function, Obligation: b.Function + "#bounded", Kind: "bounded", Pkg: b.Pkg,
+			Clause: "the bounded stand-in runs to completion", Status: "error", Output: truncate(string(out), 3000), ReplayCmd: br.Cmd, Replayed: "no-driver"}
+	}
 }
 
 // runReplay injects the property's replay driver into the package with -overlay
